@@ -87,6 +87,13 @@ _abort_user_class_construction([getattr(m, '_tx_parser', None) for m in models_t
     if the_parser is not None:
         the_parser._restore_user_attr_methods()
         the_parser._discard_user_obj_attrs()""",
+    # "loaded by this call" = not cached before in the model's repository and not taken from the global repository of the
+    # metamodel of another language (Model/Repo.v: the cached list of finish_main = own values ++ external values)
+    "get_models_loaded_with": """own = model._tx_model_repository.all_models
+def cached_elsewhere(m):
+    repo = getattr(getattr(m, '_tx_metamodel', None), '_tx_model_repository', None)
+    return repo is not None and repo.all_models is not own and any((x is m for x in repo.all_models))
+return [m for m in get_included_models(model) if id(m) not in cached_ids and (not cached_elsewhere(m))]""",
     "pre_ref_resolution_callback": """filename = other_model._tx_filename
 assert filename
 filename = abspath(filename)
@@ -168,6 +175,11 @@ def translate():
     _same(find_func(stree, "remove_model", cls="ModelRepository"), "remove_model")
     _same(find_func(stree, "remove_models_from_repositories"), "remove_models_from_repositories")
     _same(find_func(stree, "get_included_models"), "get_included_models")
+    _same(find_func(stree, "get_models_loaded_with"), "get_models_loaded_with")
+    # an imported file is loaded by the metamodel registered for it; that metamodel consults its own global repository
+    for fname in ("load_models_using_filepattern", "load_model_using_search_path"):
+        need("the_metamodel = metamodel_for_file_or_default_metamodel(filename, the_metamodel)" in ast.unparse(find_func(stree, fname, cls="GlobalModelRepository")),
+             fname + ": the metamodel of an imported file is no longer chosen by metamodel_for_file_or_default_metamodel")
     _same(find_func(stree, "pre_ref_resolution_callback", cls="GlobalModelRepository"), "pre_ref_resolution_callback")
     need(_text(_body(find_func(stree, "remove_model", cls="GlobalModelRepository"))) ==
          "self.all_models.remove_model(model)\nself.local_models.remove_model(model)", "GlobalModelRepository.remove_model changed")
@@ -279,10 +291,9 @@ def translate():
                 "    remove_models_from_repositories(loaded_models, loaded_models)\nraise")
         need(mht in (want, "raise"), "model processor handler changed: " + mht)
         need("cached_ids = {id(m) for m in self._tx_model_repository.all_models}" in it and
-             "loaded_models = [m for m in get_included_models(model) if id(m) not in cached_ids]" in it and
-             _has(it, "if is_main_model and hasattr(model, '_tx_model_repository'): from textx.scoping import get_included_models loaded_models = [m for m") and "loaded_models = None" in it,
+             _has(it, "if is_main_model and hasattr(model, '_tx_model_repository'): from textx.scoping import get_models_loaded_with loaded_models = get_models_loaded_with(model, cached_ids)") and "loaded_models = None" in it,
              "computation of the models loaded by this call changed")
-        k_c, k_l, k_m = it.find("cached_ids = {id(m)"), it.find("get_model_from_str("), it.find("loaded_models = [m for m")
+        k_c, k_l, k_m = it.find("cached_ids = {id(m)"), it.find("get_model_from_str("), it.find("loaded_models = get_models_loaded_with(")
         need(0 <= k_c < k_l < k_m, "cached models must be recorded before the load and the loaded ones after it")
         cleanup_mp = mht == want
 
@@ -300,8 +311,8 @@ def translate():
         sh = _bare_handler(s_tries[0])
         need(sh is not None, "model_from_str: model processor handler is not a single bare except")
         sht = _text(sh.body)
-        want_s = ("if hasattr(model, '_tx_model_repository'):\n    from textx.scoping import get_included_models, remove_models_from_repositories\n"
-                  "    loaded_models = [m for m in get_included_models(model) if id(m) not in cached_ids]\n"
+        want_s = ("if hasattr(model, '_tx_model_repository'):\n    from textx.scoping import get_models_loaded_with, remove_models_from_repositories\n"
+                  "    loaded_models = get_models_loaded_with(model, cached_ids)\n"
                   "    remove_models_from_repositories(loaded_models, loaded_models)\nraise")
         need(sht in (want_s, "raise"), "model_from_str: model processor handler changed: " + sht)
         need(0 <= st.find("cached_ids = {id(m) for m in self._tx_model_repository.all_models}") < st.find("get_model_from_str("),
